@@ -47,9 +47,22 @@ def strip_ref(e):
     return e
 
 
+def _through_locals(e):
+    """the expression an immutable local stands for (`let privacy_unit = PrivacyUnit::privacy_unit();` .. `Expr::col(privacy_unit)`), through & / clone / as_str"""
+    e = strip_ref(e)
+    for _ in range(4):
+        while e["k"] == "mcall" and e["m"] in ("clone", "to_string", "to_owned", "as_str", "into") and not e["args"]:
+            e = strip_ref(e["recv"])
+        if e["k"] == "path" and len(e["segs"]) == 1 and e["segs"][0] in _LOCALS:
+            e = strip_ref(_LOCALS[e["segs"][0]])
+        else:
+            break
+    return e
+
+
 def pu_const(e):
     """PrivacyUnit::privacy_unit() -> 'pu'; privacy_unit_weight() -> 'w' (also via PrivacyUnitPath)."""
-    e = strip_ref(e)
+    e = _through_locals(e)
     if e["k"] == "call" and not e["args"]:
         p = path_of(e["f"]) or ""
         if re.search(r"(^|::)PrivacyUnit(Path)?::privacy_unit$", p):
@@ -60,7 +73,7 @@ def pu_const(e):
 
 
 def side_const(e):
-    e = strip_ref(e)
+    e = _through_locals(e)
     if e["k"] == "call" and not e["args"]:
         p = path_of(e["f"]) or ""
         if p.endswith("Join::left_name"):
@@ -257,9 +270,56 @@ def y1(rep, src):
         rep.violation("Y7", key7, "the output unit id is read from the %s side only, for every join operator: unmatched rows kept by an outer join of the other side get a NULL unit id" % "/".join(sorted(sides_in_pu)), f.where())
 
 
+def _strategy_gate_as_match(body):
+    """`if self.strategy == Strategy::Soft { return Err(..); } <rest>` (also `!= Strategy::Hard`, `matches!(self.strategy, Strategy::Soft)`) read as
+    `match self.strategy { Strategy::Soft => Err(..), _ => { <rest> } }` - the enum has the two variants Soft and Hard (checked by the caller's arm table: an unknown variant is UNDECIDED)."""
+    if body.get("k") != "block":
+        return None
+    for i, st in enumerate(body["stmts"]):
+        e = st.get("e") if st.get("k") == "expr" else None
+        if not (isinstance(e, dict) and e.get("k") == "if" and e["cond"]["k"] != "letcond"):
+            continue
+        c = e["cond"]
+        while c["k"] == "paren":
+            c = c["e"]
+        var = None
+        if c["k"] == "binary" and c["op"].strip() in ("==", "!="):
+            for a, b in ((c["lhs"], c["rhs"]), (c["rhs"], c["lhs"])):
+                pb = path_of(b) or ""
+                if show(a, 0).endswith("strategy") and "Strategy::" in pb:
+                    v = pb.rsplit("::", 1)[-1]
+                    var = (a, v if c["op"].strip() == "==" else {"Soft": "Hard", "Hard": "Soft"}.get(v))
+        elif c["k"] == "macro" and c.get("name") == "matches" and c.get("args") and len(c["args"]) == 2 and show(c["args"][0], 0).endswith("strategy"):
+            pb = path_of(c["args"][1]) or ""
+            if "Strategy::" in pb:
+                var = (c["args"][0], pb.rsplit("::", 1)[-1])
+        if var is None or var[1] is None:
+            continue
+        tb = e["then"]
+        l = e.get("l", 0)
+        if e.get("else") is not None:  # the canonical view writes the early return as if / else
+            first, rest = tb, e["else"]
+        elif tb["k"] == "block" and len(tb["stmts"]) == 1 and tb["stmts"][0]["k"] == "expr" and tb["stmts"][0]["e"]["k"] == "return" and tb["stmts"][0]["e"].get("e") is not None:
+            first, rest = tb["stmts"][0]["e"]["e"], {"k": "block", "l": l, "stmts": body["stmts"][i + 1 :]}
+        else:
+            continue
+        return {
+            "k": "match", "l": l, "e": var[0],
+            "arms": [
+                {"l": l, "pat": {"k": "path", "l": l, "p": "Strategy::" + var[1], "segs": ["Strategy", var[1]]}, "guard": None, "body": first},
+                {"l": l, "pat": {"k": "wild", "l": l}, "guard": None, "body": rest},
+            ],
+        }
+    return None
+
+
 def strategy_arms(rep, rid, f, key):
     """`match self.strategy { Soft => Err(..), Hard => {...} }`"""
     ms = [m for m in find(f.body, "match") if show(m["e"], 0).endswith("strategy")]
+    if not ms:
+        sm = _strategy_gate_as_match(f.body)
+        if sm is not None:
+            ms = [sm]
     if len(ms) != 1:
         rep.violation(rid, key + "@strategy", "no `match self.strategy` in %s" % key, f.where())
         return None
@@ -386,6 +446,7 @@ def y6(rep, src):
         necessary="dropping or recomputing the unit column detaches rows from their unit",
     )
     f = _cv(src.one_fn(name="map", file=PUT, self_ty_re=r"^PrivacyUnitTracking"), src)
+    _set_locals(f)
     key = "PrivacyUnitTracking::map"
     chains = builder_chains(f.body, "map")
     if len(chains) != 1:
@@ -619,11 +680,31 @@ def y8(rep, src):
     lets = {l["pat"]["name"]: l["init"] for l in find(br, "let") if l["pat"]["k"] == "ident" and l.get("init") is not None}
     lets.update({l["pat"]["pat"]["name"]: l["init"] for l in find(br, "let") if l["pat"]["k"] == "typed" and l["pat"]["pat"]["k"] == "ident" and l.get("init") is not None})
 
+    # `let (fields, names) = helper(a, b);` where the private helper returns `(vec![x, ..], vec![y, ..])` built from its parameters: fields starts with x[a, b], names with y[a, b]
+    tuple_first = {}
+    helpers = {h.name: h for h in src.fns if h.file == f.file and not h.self_ty and not h.test and h.body}
+    for l in find(br, "let"):
+        i = l.get("init")
+        if l["pat"]["k"] != "tuple" or i is None or i["k"] != "call" or (path_of(i["f"]) or "") not in helpers:
+            continue
+        h = helpers[path_of(i["f"])]
+        hp = [q["pat"]["name"] for q in h.params if q["pat"]["k"] == "ident"]
+        tail = h.body["stmts"][-1] if h.body["stmts"] else None
+        if len(hp) != len(i["args"]) or tail is None or tail["k"] != "expr" or tail.get("semi") or tail["e"]["k"] != "tuple" or len(tail["e"]["elems"]) != len(l["pat"]["elems"]):
+            continue
+        hl = {q["pat"]["name"]: q["init"] for q in find(h.body, "let") if q["pat"]["k"] == "ident" and q.get("init") is not None}
+        for pe, te in zip(l["pat"]["elems"], tail["e"]["elems"]):
+            v = hl.get(path_of(te) or "", te)
+            if pe["k"] == "ident" and v["k"] == "macro" and v.get("name", "").endswith("vec") and v.get("args"):
+                first = v["args"][0]
+                fp = plain(first)
+                tuple_first[pe["name"]] = plain(i["args"][hp.index(fp)]) if fp in hp else fp
+
     def first_of(name):
         e = lets.get(name)
         if e is not None and e["k"] == "macro" and e.get("name", "").endswith("vec") and e.get("args"):
             return plain(e["args"][0])
-        return None
+        return tuple_first.get(name)
 
     push = [c for c in find(br, "call") if is_call_to(c, "ReferredFields::new")]
     stored = fetched = None
@@ -722,6 +803,36 @@ def b1(rep, mir, prefixes, rid="B1"):
     return n
 
 
+def y9(rep, src):
+    """Row privacy through a foreign key: the row pseudo-column is materialised on the referred relation before it is fetched."""
+    rep.rule(
+        "Y9",
+        "Relation::with_referred_fields: when the fields to fetch include the row pseudo-column (`referred_fields.contains(PrivacyUnit::privacy_unit_row())`), the referred relation the join reads is "
+        "`<referred relation>.privacy_unit_row()` - the branch taken in that case builds it, and the join's `.left(..)` is fed that value",
+        floor=1,
+        necessary="`_PRIVACY_UNIT_ROW_` is not a column of any table: if it is not added to the referred relation first, a table protected 'by row, through a foreign-key path' gets a weight column and no unit column - "
+        "its tracked rows carry no unit, and the rewriting of an accepted query aborts",
+    )
+    fs = [f for f in src.find_fns(name="with_referred_fields", file=PUT) if f.body and not f.test]
+    key = "Relation::with_referred_fields@row"
+    if len(fs) != 1:
+        rep.undecidable("Y9", key, "expected one with_referred_fields, found %d" % len(fs), "src/" + PUT)
+        return
+    f = fs[0]
+    row_call = lambda e: any(x["k"] == "call" and (path_of(x["f"]) or "").endswith("privacy_unit_row") and not x["args"] for x in walk(e))
+    sites = [n for n in find(f.body, "if") if n["cond"]["k"] != "letcond" and row_call(n["cond"]) and any(x["k"] == "mcall" and x["m"] in ("contains", "any", "iter") for x in walk(n["cond"]))]
+    if len(sites) != 1:
+        rep.undecidable("Y9", key, "expected one `if referred_fields.contains(&PrivacyUnit::privacy_unit_row()..)`, found %d" % len(sites), f.where())
+        return
+    n = sites[0]
+    negated = n["cond"]["k"] == "unary" and n["cond"]["op"].strip() == "!"
+    branch = n["else"] if negated else n["then"]
+    adds = branch is not None and any(x["k"] == "mcall" and x["m"] == "privacy_unit_row" and not x["args"] for x in walk(branch))
+    rep.instance("Y9", key, {"condition": show(n["cond"], 80), "row_column_added_in_branch": adds})
+    if not adds:
+        rep.violation("Y9", key, "the branch taken when the row pseudo-column is requested does not call `.privacy_unit_row()` on the referred relation: %s" % show(branch, 80), "src/%s:%d" % (PUT, n["l"]))
+
+
 def t5(rep, src):
     rep.rule(
         "T5",
@@ -746,6 +857,8 @@ def t5(rep, src):
 
         names = pat_binds(cl["params"][0]) if cl["params"] else []
         body = cl["body"]
+        while body["k"] == "block" and len(body["stmts"]) == 1 and body["stmts"][0]["k"] == "expr" and not body["stmts"][0].get("semi"):
+            body = body["stmts"][0]["e"]  # `|e| { test }` is `|e| test`
         if names:
             body = subst(body, {names[0]: {"k": "path", "p": "ENTRY", "segs": ["ENTRY"], "l": 0}})
         return show(body, 0).replace(" ", "")
@@ -777,6 +890,7 @@ def run(rep):
     y5(rep, src)
     y6(rep, src)
     y8(rep, src)
+    y9(rep, src)
     b1(rep, mir, ["privacy_unit_tracking::", "rewriting::rewriting_rule::"])
     t5(rep, src)
     rep.assume("the builders implement their documented semantics (JoinBuilder::and is checked by Y5; With<node> copies the node's inputs: read in relation/builder.rs)")
